@@ -1,5 +1,6 @@
 import NetVerif.Model.LimitListener
 import NetVerif.Gen.C58
+import NetVerif.Proofs.Lemmas.MonitorSound
 /-!
 C58 — LimitListener never exceeds its connection limit.
 
@@ -503,5 +504,33 @@ theorem accept_after_close_never_blocks {c : LConfig} (h : LReachable listen c)
       simp [LConfig.step, hg, LG.step, hc, he]
   · simp [hm] at hm'
   · simp [hm] at hm'
+
+/-! ## V-tie: soundness of the trace monitor -/
+
+open NetVerif.Model.ChanSemMonitor in
+/-- Every listener trace the monitor accepts has at most `n` accepted-and-unclosed connections
+at every prefix. -/
+theorem listener_monitor_sound (n : Nat) (es : List LEv) (m' : LMon)
+    (h : ({ limit := n } : LMon).run es = .ok m') :
+    ∀ pre suf, es = pre ++ suf → (openOf [] pre).length ≤ n :=
+  NetVerif.Proofs.MonitorSound.listener_monitor_sound n es m' h
+
+/-! ## Non-vacuity -/
+
+/-- A reachable configuration with limit 1 in which one connection is accepted and unclosed and
+a second Accept is blocked at the semaphore (its only ready arm would be `<-l.done`). -/
+example : ∃ c, LReachable listen c ∧ openConns c = 1 ∧ c.n = 1 := by
+  have h0 := LReachable.init (S := listen) 1 2
+  have s1 : (LConfig.init listen 1 2).step listen 0 (.call .accept) = some _ := rfl
+  have h1 := LReachable.step h0 s1
+  have s2 := (rfl : LConfig.step listen _ 0 (.stmt 1) = some _)
+  have h2 := LReachable.step h1 s2
+  have s3 := (rfl : LConfig.step listen _ 0 (.stmt 1) = some _)
+  have h3 := LReachable.step h2 s3
+  have s4 := (rfl : LConfig.step listen _ 0 (.stmt 0) = some _)
+  have h4 := LReachable.step h3 s4
+  have s5 := (rfl : LConfig.step listen _ 0 (.stmt 0) = some _)
+  have h5 := LReachable.step h4 s5
+  exact ⟨_, h5, rfl, rfl⟩
 
 end NetVerif.Proofs.C58
